@@ -148,9 +148,12 @@ def _splitting(prog, ci, c, fn, unroll):
     ex = hmc_expander(prog, ci)
     env = {t: R.sym("t"), r: R.sym("r"), fn.args.args[3].arg: R.sym("n_steps")}
     # leading definitions (r_step)
+    lead_ids, coeff_names = set(), set()
     for st in fn.body:
         if isinstance(st, ast.Assign):
             guard(lambda: ex.exec_stmt(st, env))
+            lead_ids.add(id(st))
+            coeff_names |= {x.id for t_ in st.targets for x in ast.walk(t_) if isinstance(x, ast.Name)}
         else:
             break
     # locals that hold a gradient evaluation (`force = self.grad(t)`): bound in the environment for the coefficient algebra, and
@@ -204,8 +207,16 @@ def _splitting(prog, ci, c, fn, unroll):
 
     def classify(node):
         ev = []
-        if id(node) in vel_skip:
+        if id(node) in vel_skip or id(node) in lead_ids:
             return ev
+        # a step coefficient (r_step ..) re-bound after the leading definitions - inside the loop, between the kicks - changes the map
+        # from one sub-step to the next: the splitting read from the leading definitions no longer describes the code
+        if isinstance(node, (ast.Assign, ast.AugAssign)):
+            tn_ = [x.id for t_ in (node.targets if isinstance(node, ast.Assign) else [node.target]) for x in ast.walk(t_)
+                   if isinstance(x, ast.Name) and isinstance(x.ctx, ast.Store)]
+            if any(n_ in coeff_names - {t, r} for n_ in tn_):
+                ev.append(("X", node.lineno, U(node) + "  [step coefficient re-bound after the leading definitions]"))
+                return ev
         if id(node) in vel_subst:
             vn_, vv_, _b = vel_subst[id(node)]
 
